@@ -13,7 +13,11 @@ import (
 func (m *Machine) unop(fr *frame, instr *ssa.UnOp, x Value) Value {
 	switch instr.Op {
 	case token.MUL: // load
-		return load(m.deref(fr, x))
+		addr := m.deref(fr, x)
+		if m.protected != nil || m.shared != nil {
+			m.checkAccess(addr, false)
+		}
+		return load(addr)
 	case token.ARROW:
 		return m.chanRecv(fr, x, instr.CommaOk, instr)
 	case token.NOT:
